@@ -217,6 +217,28 @@ func runC14(c *core.Ctx) {
 				}
 				hist = append(hist, fmt.Sprintf("only-subband(%d)", sb))
 			}
+			if n > 16 && (h%4 == 2 || h%8 == 3) { // whole 16-channel blocks (or 8-channel sub-bands) either fully on or fully off
+				w := 16
+				if h%8 == 3 {
+					w = 8
+				}
+				mask := r.Intn(1 << uint((n+w-1)/w))
+				wideMask, useWide := r.Intn(256), r.Bool()
+				for k := 0; k < n; k++ {
+					on := mask>>uint(k/w)&1 == 1
+					if k >= 64 && n == 72 && useWide {
+						on = wideMask>>uint(k-64)&1 == 1
+					}
+					if on {
+						b.EnableUplinkChannelIndex(k)
+						enabled[k] = true
+					} else {
+						b.DisableUplinkChannelIndex(k)
+						delete(enabled, k)
+					}
+				}
+				hist = append(hist, fmt.Sprintf("whole-blocks(width=%d,mask=%#x)", w, mask))
+			}
 			// cross-check the harness' view of the network with the band
 			if got := b.GetEnabledUplinkChannelIndices(); len(got) != len(enabled) {
 				c.Violate("C14|"+cfg.Name+"|enabled-set", "band reports %v enabled after [%v], harness model has %d", got, hist, len(enabled))
